@@ -367,3 +367,49 @@ contract('DocumentTemplate.DT_Util.Eval.eval',
          uses=[GETITEM, GI],
          invariants={1: dict(header="for name in self.used", inv=dict(t="True"), havoc_heap=["d"],
                              types={'name': 'opaque'}, on_iteration=_eval_iter)})
+
+
+# ------------------------------------------------------------------ Let.__init__: what each binding compiles to (C02: values reach
+# expressions uncalled -- a quoted binding is an expression, evaluated by Eval.eval with names fetched uncalled; only an
+# unquoted binding is a plain name lookup, which calls the value)
+def _let_ctor_state(E, env):
+    sec = E.alloc(HObj(None, {'blocks': E.alloc(HList([]))}, name='pyobj:section', lazy=True))
+    env.locals['blocks'] = E.alloc(HList([VT([VC('let'), VC('x=y z="w" v="a+1"'), sec])]))
+
+
+def _let_ctor_exit(E, outcome, value, env, prefix):
+    ob = lambda n, c, d: E.oblige(prefix + '::C02.' + n, c, kind='post', detail=d)  # noqa
+    if outcome != 'normal':
+        return      # rejections are C06 (the library model of Eval() may raise SyntaxError for any text)
+    me = E.heap[env.locals['self'].addr]
+    args = me.fields.get('args')
+    items = E.heap[args.addr].items if isinstance(args, VRef) and isinstance(E.heap[args.addr], HList) else []
+    pairs = []
+    for it in items:
+        pairs.append(it.items if isinstance(it, VT) else (E.heap[it.addr].items if isinstance(it, VRef) else [None, None]))
+    ok_shape = len(pairs) == 3 and all(len(p) == 2 for p in pairs)
+    ob('let.compile.one_pair_per_binding_in_order', bool(ok_shape and [getattr(p[0], 'v', None) for p in pairs] == ['x', 'z', 'v']),
+       'self.args holds one (name, value source) pair per binding, in source order')
+    if not ok_shape:
+        return
+    ob('let.compile.unquoted_binding_is_a_name_lookup', bool(isinstance(pairs[0][1], VC) and pairs[0][1].v == 'y'),
+       'x=y: the value source is the name y (looked up, and called, through the namespace when the let is rendered)')
+
+    def is_eval_of(v, text):
+        if not isinstance(v, VBM):
+            return False
+        fn, obj = v.fn, v.self
+        qual = getattr(fn, 'qual', '') or getattr(fn, 'name', '')
+        if not str(qual).endswith('Eval.eval'):
+            return False
+        h = E.heap.get(obj.addr) if isinstance(obj, VRef) else None
+        ex = h.fields.get('expr') if h is not None else None
+        return ex is None or (isinstance(ex, VC) and ex.v == text)
+    ob('let.compile.quoted_binding_is_an_expression', bool(is_eval_of(pairs[1][1], 'w') and is_eval_of(pairs[2][1], 'a+1')),
+       'z="w", v="a+1": a quoted value -- also one that is just a name -- compiles to the evaluation of that expression '
+       '(Eval.eval fetches names with call=0, so callables and templates reach the expression uncalled)')
+
+
+contract('DocumentTemplate.DT_Let.Let.__init__', variant='C02.compile',
+         params=dict(self=Obj('DocumentTemplate.DT_Let.Let', lazy=False, prov='fresh'), blocks=NoneV(), encoding=NoneV()),
+         pre_hook=_let_ctor_state, exit_hook=_let_ctor_exit)
